@@ -699,7 +699,14 @@ func main() {
 	ctx.Jobs("record", len(alphabet), func(j int) { space(j) })
 	ctx.Jobs("timing-product", 16, func(j int) { timingProduct(j, 16) })
 	ctx.Jobs("long-takes", 16, func(j int) { longTakes(j, 16) })
-	ctx.Jobs("two-ports", 1, func(int) { twoRecordings(); recordTo(); reusingDriver(); queuedDriver(); equalTakes(); closedWhileListening() })
+	ctx.Jobs("two-ports", 1, func(int) {
+		twoRecordings()
+		recordTo()
+		reusingDriver()
+		queuedDriver()
+		equalTakes()
+		closedWhileListening()
+	})
 	ctx.Set("message_alphabet", len(alphabet))
 	ctx.Set("tempi", tempi)
 	ctx.Set("gaps_ms", gaps)
